@@ -3,7 +3,6 @@ package html
 import (
 	"fmt"
 	"io"
-	"strings"
 
 	"github.com/elliotchance/gedcom/v39"
 	"github.com/elliotchance/gedcom/v39/html/core"
@@ -182,15 +181,10 @@ func getUniqueKey(individualMap map[string]*gedcom.IndividualNode, s string, pla
 }
 
 func surnameStartsWith(individual *gedcom.IndividualNode, letter rune) bool {
-	name := individual.Name().Format(gedcom.NameFormatIndex)
-	if name == "" {
-		name = "#"
-	}
-
-	lowerName := strings.ToLower(name)
-	firstLetter := rune(lowerName[0])
-
-	return firstLetter == letter
+	// This must be the same letter that was used to create the pages for the
+	// individuals, otherwise some individuals (like those without a surname)
+	// do not appear on any page.
+	return getIndexLetter(individual) == letter
 }
 
 func individualForNode(doc *gedcom.Document, node gedcom.Node) *gedcom.IndividualNode {
